@@ -365,8 +365,16 @@ Step(s) ==
     [] s.pc = "g_done"    -> StepGreedyDone(s)
     [] s.pc = "done"      -> s
 
-RECURSIVE Run(_)
-Run(s) == IF s.pc = "done" THEN s ELSE Run(Step(s))
+\* Run iterates Step until pc = "done".  It is written as a doubling recursion (RunK(s, k) performs up to
+\* 2^k steps and stops early) so that the recursion depth stays below 24 even for messages of thousands
+\* of AVPs: a linear recursion tens of thousands of frames deep made TLC's garbage collector scan a huge
+\* stack at every collection (15 min for one 10 920-AVP message instead of seconds).
+RECURSIVE RunK(_, _)
+RunK(s, k) ==
+  IF s.pc = "done" THEN s
+  ELSE IF k = 0 THEN Step(s)
+  ELSE LET t == RunK(s, k - 1) IN IF t.pc = "done" THEN t ELSE RunK(t, k - 1)
+Run(s) == RunK(s, 22)
 
 ---------------------------------------------------------------------------
 \* Big-step operators (the oracle used by trace validation)
